@@ -63,9 +63,12 @@ TraceRed ==
   /\ i' = i + 1
   /\ UNCHANGED <<tid, pc>>
 
+(* scaled replays: every row of the small input was repeated T.mult times in the real call *)
+Mult == IF "mult" \in DOMAIN T THEN T.mult ELSE 1
+Scaled(x) == IF T.op \in {"size", "count", "sum"} THEN x * Mult ELSE x
 GVal(g) == IF T.op = "mean" THEN MeanOf(part[g].a, part[g].c)
            ELSE IF T.op \in {"var", "std"} THEN DefVarRat(GroupValsH(dict[g]), T.ddof)
-           ELSE ValueOf(g)
+           ELSE Scaled(ValueOf(g))
 EmptyVal == IF T.op \in RatOps THEN NullRat ELSE ResultOf(kernel, EmptyP(kernel))
 DontCareG(g) == T.nonull = 1 /\ ~SumLike(kernel) /\ part[g].c = 0
 
